@@ -427,8 +427,21 @@ def snapshot(root):
             except Exception:  # noqa: BLE001
                 val = None
         leaves["/".join(p)] = {"id": id(v), "ptr": ptr, "type": type(v).__name__,
-                               "nt": (v.tolist() if is_nt(v) else None), "val": val}
+                               "nt": (v.tolist() if is_nt(v) else None), "val": val, "ntmeta": _nt_meta(v) if is_nt(v) else None}
     return {"nodes": nodes, "leaves": leaves}
+
+
+def _nt_meta(v, depth=0):
+    """names / batch size of a non-tensor entry (a tensor collection of its own), read from the instance dicts only"""
+    try:
+        inner = v.__dict__.get("_tensordict")
+        if inner is not None:
+            return [list(inner.batch_size), repr(inner.__dict__.get("_td_dim_names"))]
+        if depth < 3:
+            return [repr(v.__dict__.get("_td_dim_name")), [_nt_meta(m, depth + 1) for m in v.__dict__.get("tensordicts", [])]]
+    except Exception:  # noqa: BLE001
+        pass
+    return None
 
 
 def is_prefix(a, b):
